@@ -2,11 +2,8 @@
   C01 — Text-string matches are exactly the documented occurrences. Property theorems only
   (helpers: Lemmas/Text*.lean). Specification: Spec/Text.lean. Model of the engine: Model/TextScan.lean.
 -/
-import YaraModel.Lemmas.TextCover
+import YaraModel.Lemmas.TextFinal
 namespace YaraModel.Text
-
-theorem mem_ite_singleton {α : Type} {c : Bool} {x v : α} (h : v ∈ (if c = true then [x] else [])) : c = true ∧ v = x := by
-  cases c <;> simp_all
 
 /-- **Nothing can be missed by the index**: for EVERY string, EVERY legal modifier set and xor range, EVERY
     window the quality heuristic may choose (`ValidWindow w s`), EVERY buffer and offset: if the string occurs
@@ -61,5 +58,105 @@ theorem atoms_cover (w : Nat) (m : Mods) (s buf : Bytes) (o : Nat) (hw : ValidWi
             exact cover_enc (m := m) (widen s) ((widen s).map (· ^^^ k)) (2 * w)
               (by rw [← wideOf_base]; exact wide_mem_l0 hwd) (by rw [widen_length]; omega)
               (xorKeyAt_some hk) (xor_rel hleg hx hr.1)
+
+
+/-- **The reported list is exactly the documented occurrences** (partial: two hypotheses, see below).
+    For EVERY non-empty string, EVERY legal modifier set / xor range, EVERY atom window `w` (every quality
+    table), EVERY buffer, and EVERY candidate list `C` — in ANY arrival order, with ANY repetitions — that
+    contains exactly the occurrences of the indexed atoms (`CandsOK`, the automaton stage's contract, checked
+    on the real tables per case), the modelled engine (verification of each candidate as
+    `_yr_scan_verify_literal_match` does it, `fullword` test, ordered de-duplicating insertion) reports
+      * exactly the offsets at which the string occurs under the documented semantics (`occurrences`),
+        in ascending order, each once,
+      * each with an admissible (true) length and xor key.
+    Hypotheses `h19`, `h20` exclude precisely the two situations in which the faithful model — like the
+    code — deviates from the specification (known findings F19: an occurrence under a key outside the
+    declared range exists somewhere; F20: at some offset one encoding passes `fullword` and the other fails).
+    FULL statement (without `h19 h20`) is FALSE for the current code; witnesses are in corpus/C01. -/
+theorem pipeline_exact_partial (w : Nat) (m : Mods) (s buf : Bytes) (C : List (Nat × Nat))
+    (hleg : m.legal = true) (hs : s.isEmpty = false) (hw : ValidWindow w s) (hC : CandsOK w m s buf C)
+    (h19 : ∀ o, variantsAt (anyKey m) s buf o = variantsAt m s buf o)
+    (h20 : ∀ o, ¬ MixedAt m s buf o) :
+    (pipeline m s buf C).map (·.off) = (occurrences m s buf).map (·.1) ∧
+    (∀ x ∈ pipeline m s buf C, (x.len, x.key) ∈ admissibleAt m s buf x.off) ∧
+    Asc (pipeline m s buf C) := by
+  rw [pipeline_eq_pipeG]
+  let V : Nat × Nat → Option Match := fun c => verifyCandidate m s c.2 buf c.1
+  have hVoff : ∀ c x, V c = some x → x.off = c.1 := fun c x h => verify_off h
+  obtain ⟨hasc, hoffs, hmem⟩ := pipeG_spec V hVoff C [] (by simp [Asc])
+  have hsound : ∀ c ∈ C, ∀ x, V c = some x → x.off = c.1 ∧ (x.len, x.key) ∈ admissibleAt m s buf c.1 := by
+    intro c hc x hx
+    obtain ⟨h1, h2, h3⟩ := verify_sound w m s buf c.2 c.1 x hleg hs hw (hC.exact c hc) hx
+    refine ⟨h1, ?_⟩
+    rw [h19] at h2
+    refine mem_admissible.mpr ⟨_, h2, ?_, rfl⟩
+    cases hfw : m.fullword with
+    | false => exact Or.inl rfl
+    | true => exact Or.inr (h3 hfw)
+  refine ⟨?_, ?_, hasc⟩
+  · apply sorted_ext
+    · unfold Asc at hasc
+      exact List.pairwise_map.mpr hasc
+    · rw [occurrences_offs]
+      exact List.Pairwise.filter _ List.pairwise_lt_range
+    · intro o
+      rw [hoffs o, occurrences_offs]
+      simp only [List.map_nil, List.not_mem_nil, false_or, List.mem_filter, List.mem_range]
+      constructor
+      · rintro ⟨c, hc, rfl, hsome⟩
+        obtain ⟨x, hx⟩ := Option.isSome_iff_exists.mp hsome
+        have := (hsound c hc x hx).2
+        have hne : admissibleAt m s buf c.1 ≠ [] := List.ne_nil_of_mem this
+        refine ⟨by have := admissible_inbounds hne; omega, ?_⟩
+        simpa [List.isEmpty_iff] using hne
+      · rintro ⟨_, hne⟩
+        have hne' : admissibleAt m s buf o ≠ [] := by simpa [List.isEmpty_iff] using hne
+        obtain ⟨p, hp⟩ := List.exists_mem_of_ne_nil _ hne'
+        obtain ⟨v, hv, _, _⟩ := mem_admissible.mp hp
+        obtain ⟨a, ha, hat⟩ := atoms_cover w m s buf o hw hleg v hv
+        have hcm := hC.complete a ha o hat
+        refine ⟨_, hcm, rfl, ?_⟩
+        exact verify_complete w m s buf _ o hleg hw ⟨a, ha, hat, rfl⟩ (h19 o) (h20 o) hne'
+  · intro x hx
+    rcases hmem x hx with h | ⟨c, hc, hv⟩
+    · simp at h
+    · have := hsound c hc x hv
+      rw [this.1]; exact this.2
+
+/-- `h19` holds outright when there is no xor modifier or the range is the full `xor` / `xor(0-255)`. -/
+theorem no_out_of_range_key_of_full (m : Mods) (s buf : Bytes) (h : m.xor = none ∨ m.xor = some (0, 255)) :
+    ∀ o, variantsAt (anyKey m) s buf o = variantsAt m s buf o := by
+  intro o
+  have : anyKey m = m := by
+    cases m with
+    | mk a w n f x =>
+      simp only [anyKey]
+      rcases h with h | h <;> simp only at h <;> subst h <;> rfl
+  rw [this]
+
+/-- `h20` holds outright without `fullword`. -/
+theorem no_mixed_of_not_fullword (m : Mods) (s buf : Bytes) (h : m.fullword = false) : ∀ o, ¬ MixedAt m s buf o := by
+  intro o hm
+  rw [hm.1] at h; cases h
+
+/-- The property for the common case, with no semantic hypothesis left: no `fullword`, and either no xor or
+    the full key range. -/
+theorem pipeline_exact (w : Nat) (m : Mods) (s buf : Bytes) (C : List (Nat × Nat))
+    (hleg : m.legal = true) (hs : s.isEmpty = false) (hw : ValidWindow w s) (hC : CandsOK w m s buf C)
+    (hx : m.xor = none ∨ m.xor = some (0, 255)) (hf : m.fullword = false) :
+    (pipeline m s buf C).map (·.off) = (occurrences m s buf).map (·.1) ∧
+    (∀ x ∈ pipeline m s buf C, (x.len, x.key) ∈ admissibleAt m s buf x.off) ∧
+    Asc (pipeline m s buf C) :=
+  pipeline_exact_partial w m s buf C hleg hs hw hC (no_out_of_range_key_of_full m s buf hx)
+    (no_mixed_of_not_fullword m s buf hf)
+
+/-! Non-vacuity: a concrete non-trivial instance of the hypotheses and of the conclusion. -/
+example :
+    let m : Mods := { ascii := true, wide := true, nocase := false, fullword := false, xor := some (0, 255) }
+    let s : Bytes := [0x61, 0x62, 0x63, 0x64, 0x65]
+    let buf : Bytes := [0x60, 0x63, 0x62, 0x65, 0x64, 0x2e, 0x61, 0x00, 0x62, 0x00, 0x63, 0x00, 0x64, 0x00, 0x65, 0x00]
+    m.legal = true ∧ (1 + min 4 s.length ≤ s.length) ∧
+    occurrences m s buf = [(0, [(5, 1)]), (6, [(10, 0)])] ∧
+    (pipeline m s buf [(6, 4 + 2), (0, 4 + 1)]).map (·.off) = [0, 6] := by decide
 
 end YaraModel.Text
